@@ -168,15 +168,15 @@ func (ad *hAccounts) SaveAccount(vmcommon.AccountHandler) error {
 	}
 	return nil
 }
-func (ad *hAccounts) RemoveAccount([]byte) error       { return nil }
-func (ad *hAccounts) Commit() ([]byte, error)          { return nil, nil }
-func (ad *hAccounts) JournalLen() int                  { return 0 }
-func (ad *hAccounts) RevertToSnapshot(int) error       { return nil }
-func (ad *hAccounts) GetNumCheckpoints() uint32        { return 0 }
-func (ad *hAccounts) GetCode([]byte) []byte            { return nil }
-func (ad *hAccounts) RootHash() ([]byte, error)        { return nil, nil }
-func (ad *hAccounts) RecreateTrie([]byte) error        { return nil }
-func (ad *hAccounts) IsInterfaceNil() bool             { return ad == nil }
+func (ad *hAccounts) RemoveAccount([]byte) error { return nil }
+func (ad *hAccounts) Commit() ([]byte, error)    { return nil, nil }
+func (ad *hAccounts) JournalLen() int            { return 0 }
+func (ad *hAccounts) RevertToSnapshot(int) error { return nil }
+func (ad *hAccounts) GetNumCheckpoints() uint32  { return 0 }
+func (ad *hAccounts) GetCode([]byte) []byte      { return nil }
+func (ad *hAccounts) RootHash() ([]byte, error)  { return nil, nil }
+func (ad *hAccounts) RecreateTrie([]byte) error  { return nil }
+func (ad *hAccounts) IsInterfaceNil() bool       { return ad == nil }
 
 // ---------- coordinator / payable / marshaller / epoch notifier ----------
 type hCoordinator struct {
@@ -184,12 +184,12 @@ type hCoordinator struct {
 	self uint32
 }
 
-func (c *hCoordinator) NumberOfShards() uint32               { return uint32(c.w.nShards) }
-func (c *hCoordinator) ComputeId(a []byte) uint32            { return c.w.shardOf(a) }
-func (c *hCoordinator) SelfId() uint32                       { return c.self }
-func (c *hCoordinator) SameShard(a, b []byte) bool           { return c.w.shardOf(a) == c.w.shardOf(b) }
+func (c *hCoordinator) NumberOfShards() uint32                { return uint32(c.w.nShards) }
+func (c *hCoordinator) ComputeId(a []byte) uint32             { return c.w.shardOf(a) }
+func (c *hCoordinator) SelfId() uint32                        { return c.self }
+func (c *hCoordinator) SameShard(a, b []byte) bool            { return c.w.shardOf(a) == c.w.shardOf(b) }
 func (c *hCoordinator) CommunicationIdentifier(uint32) string { return "" }
-func (c *hCoordinator) IsInterfaceNil() bool                 { return c == nil }
+func (c *hCoordinator) IsInterfaceNil() bool                  { return c == nil }
 
 type hPayable struct{ w *hWorld }
 
@@ -248,10 +248,12 @@ func (e *hEpochNotifier) IsInterfaceNil() bool { return e == nil }
 
 // ---------- shard and world ----------
 type hShard struct {
-	w         *hWorld
-	id        uint32
-	accounts  map[string]*hAccount
-	factory   interface{ GasScheduleChange(map[string]map[string]uint64) }
+	w        *hWorld
+	id       uint32
+	accounts map[string]*hAccount
+	factory  interface {
+		GasScheduleChange(map[string]map[string]uint64)
+	}
 	container vmcommon.BuiltInFunctionContainer
 	notifier  *hEpochNotifier
 }
